@@ -115,7 +115,7 @@ PROPS = {
 }
 
 PROPS.update({
-    "C09": dict(adp_prop(["EyeballVerif.Props.C09", "EyeballVerif.Props.StageSound", "EyeballVerif.Props.PipeSoundD"],
+    "C09": dict(adp_prop(["EyeballVerif.Props.C09", "EyeballVerif.Props.StageSound", "EyeballVerif.Props.PipeSoundD", "EyeballVerif.Props.PipeSoundUD"],
         "head_handle_diff / tail_handle_diff / skip_handle_diff: for every diff valid on the buffered vector, every limit/count and every vector, the emitted diffs replayed strictly on the old view "
         "(take L / lastN L / drop c) give the new view; head_update_limit / skip_update_count for every (old,new,vector); Tail::update_limit: full statement refuted by a kernel-checked witness "
         "(known finding D2) and proved outside the D2 signature (tail_update_limit_partial); *_initial: the constructors hand out the spec view", engines=[{"name": "adp"}, {"name": "vconc"}]),
@@ -152,7 +152,7 @@ PROPS.update({
                "differential run (every source over an alphabet with ties x 4 comparators x every operation) and the implementation-side sorted-permutation oracle."),
         technique="Lean 4 proof (invariant by induction over histories, one lemma per arm, loop invariants for binary search and the Append loop; kernel-checked counterexample for the known finding) + model/implementation correspondence",
         design_ref="DESIGN.md §6 C11"),
-    "C12": dict(adp_prop(["EyeballVerif.Props.C12", "EyeballVerif.Props.ChainSound", "EyeballVerif.Props.PipeSound", "EyeballVerif.Props.PipeSoundSort", "EyeballVerif.Props.PipeSoundU", "EyeballVerif.Props.PipeSoundD", "EyeballVerif.Lemmas.TruncInv"],
+    "C12": dict(adp_prop(["EyeballVerif.Props.C12", "EyeballVerif.Props.ChainSound", "EyeballVerif.Props.PipeSound", "EyeballVerif.Props.PipeSoundSort", "EyeballVerif.Props.PipeSoundU", "EyeballVerif.Props.PipeSoundD", "EyeballVerif.Lemmas.TruncInv", "EyeballVerif.Props.PipeSoundUD"],
         "pipe_poll_sound + pipeInv_initial: for the batched flavour and static chains of Head/Tail/Skip/Filter stages of any depth, the pipeline invariant (vector invariants VInv + TInv, receiver replica defined, ChainInv for that replica) holds from construction at any reachable state and is preserved by every poll of the real poll loop (pollStages), no stage panics, and an item handed out is a valid container taking the composed view before the poll to the composed view after it (Pending/End leave it unchanged); tinv_run: everything owed to a receiver is a valid container (every Truncate shortens); "
         "chain_sound: for every chain of adapters (any kinds, any depth) whose stages satisfy their invariants and every valid container from the source that brings no Truncate to a Sort stage: no stage panics, the invariants hold "
         "afterwards, and the diffs coming out at the top take the old composed view to the new composed view, strictly, and are again a valid container (induction over the chain; stage_onDiffs_sound per stage; "
